@@ -941,11 +941,11 @@ Qed.
    further round is the identity and the queue never drains. items_ready excludes the state; in reachable
    states the clause holds (ItemsInv.v). *)
 Definition stale_cf : cfg := mkCfg false 2 10 40 0 false.
-Definition stale_obj : obj := mkObj 1 1 Done 2.
+Definition stale_obj : obj := mkObj 1 1 Done 2 0.
 Definition stale_e : env :=
   mkEnv (mkTable [(1, Live stale_obj 2)] 2 3 false) 100 [] [] [] true 1 [1] [] [(1, 1)].
 Definition stale_s : rstate :=
-  mkR 2 (mkRet [mkItem (mkObj 1 1 Pending 1) 1 1 false 20 1 false] None 10 40) 2 1 true false false 0.
+  mkR 2 (mkRet [mkItem (mkObj 1 1 Pending 1 0) 1 1 false 20 1 false] None 10 40) 2 1 true false false 0.
 
 Lemma stale_full_inv : full_inv stale_e stale_s.
 Proof.
